@@ -495,6 +495,9 @@ def check_numeric_attribute(defines, attribute, value):
     if define is None or define.type not in ("INT", "HEX", "FLOAT"):
         return
     number = float(value)
+    if not math.isfinite(number):
+        # float() also takes the words inf, infinity and nan, and numbers beyond its range
+        raise ValueError("attribute %s needs a number, got %s" % (attribute, value))
     if define.type != "FLOAT" and not number.is_integer():
         raise ValueError("attribute %s needs an integer, got %s" % (attribute, value))
 
